@@ -638,8 +638,80 @@ func runClkCommitStamp(c *core.Ctx) {
 			fld := an.Field(t, cr.clockField)
 			_, writes := e.Fx.Of(fn).Writes[fld]
 			ok = writes
+			// ... on every path of Commit: a stamp that depends on a flag some write path may not set (an indexed write goes
+			// through the sub-resource) leaves that write with its write-time clock
+			if ok {
+				g := e.Graph(fn)
+				stamp := func(a ast.Node) bool {
+					_, isStore := fieldIsAssigned(info, a, fld)
+					return isStore
+				}
+				if always, _ := g.MustPass(nil, stamp, nil); !always {
+					c.Bad(key+":on-every-path", fn.Pos(), "%s.Commit attaches the committing section's clock on some paths only: a write that does not arm the condition (an indexed write `x[k] := v` goes through the sub-resource) keeps its write-time clock, and a later reader's clock does not dominate the writer's logged event", an.TypeKey(t))
+				} else {
+					c.Ok(key+":on-every-path", fn.Pos(), "every path of Commit stamps")
+				}
+			}
 		}
 		c.Check(ok, key, fn.Pos(), "the committing archetype's clock is attached in Commit",
 			fmt.Sprintf("values written through %s keep the clock the writer had at write time: if the section later reads something with a newer clock, readers of this value carry a clock that does not dominate the writer's logged event", an.TypeKey(t)))
+	}
+}
+
+func init() {
+	register(&core.Rule{ID: "EV-NAMES", Props: []string{"C18"}, Floor: 2,
+		Doc: "the name an access is logged under is the name the code used for it: both functions that hand a handle to a critical section (RequireArchetypeResource, RequireArchetypeResourceRef) re-label the handle with the requested name on every path. A by-reference parameter re-labels the caller's variable with the parameter name; if the direct lookup does not label it back, every later access of that variable is logged under the callee's parameter name and a replay of the trace assigns the values to the wrong variable",
+		Run: runEvNames})
+}
+
+func runEvNames(c *core.Ctx) {
+	e := EnvOf(c.Prog)
+	ctxT := mustType(c, e, an.PkgDistsys, "MPCalContext")
+	if ctxT == nil {
+		return
+	}
+	names := mustField(c, ctxT, "apparentResourceNames")
+	if names == nil {
+		return
+	}
+	for _, fname := range []string{"RequireArchetypeResource", "RequireArchetypeResourceRef"} {
+		fn := mustMethod(c, e, an.PkgDistsys, "ArchetypeInterface", fname)
+		if fn == nil {
+			continue
+		}
+		info := fn.Pkg.Info
+		g := e.Graph(fn)
+		// the requested name: the first parameter
+		var nameParam types.Object
+		if ps := fn.Decl.Type.Params.List; len(ps) > 0 && len(ps[0].Names) > 0 {
+			nameParam = info.Defs[ps[0].Names[0]]
+		}
+		label := func(a ast.Node) bool {
+			as, ok := a.(*ast.AssignStmt)
+			if !ok || len(as.Lhs) != 1 || len(as.Rhs) != 1 {
+				return false
+			}
+			ix, isIx := an.Unparen(as.Lhs[0]).(*ast.IndexExpr)
+			if !isIx || an.SelectedField(info, ix.X) == nil || an.SelectedField(info, ix.X).Origin() != names {
+				return false
+			}
+			return nameParam != nil && an.ObjOf(info, an.ResolveLocal(info, fn.Body(), as.Rhs[0])) == nameParam
+		}
+		// every normal return of a handle passes the labelling store (error returns of the Ref variant are exempt:
+		// they return no usable handle)
+		p := g.Search(an.Query{ToExit: true, Avoid: func(a ast.Node) bool {
+			if label(a) {
+				return true
+			}
+			// an error return: `return "", err` / a return whose last result is a non-nil error variable
+			if rs, isRet := a.(*ast.ReturnStmt); isRet && len(rs.Results) == 2 {
+				if id, isId := an.Unparen(rs.Results[1]).(*ast.Ident); !isId || id.Name != "nil" {
+					return true
+				}
+			}
+			return false
+		}})
+		c.Check(!p.Found, fname+":labels-handle-with-requested-name", fn.Pos(), "the handle is (re-)labelled with the requested name before it is handed out",
+			fname+" can hand out a handle without labelling it with the name it was asked for: after a by-reference call re-labelled the variable, its accesses stay logged under the callee's parameter name")
 	}
 }
